@@ -20,7 +20,7 @@ from ..core import Prop
 compat.install()
 
 REL = 1e-9
-CLAUSE_ORDER = ["raised", "nonfinite", "taxa", "raw", "standardised", "standardised:constant", "standardised:constant:inexact_mean",
+CLAUSE_ORDER = ["raised", "nonfinite", "taxa", "raw", "standardised", "standardised:constant",
                 "stat:tmax", "stat:tmin", "stat:trange", "stat:tmean", "stat:targmax", "stat:targmin",
                 "stat:tstd", "stat:tvar", "stat:tstd:constant", "stat:tvar:constant"]
 # clauses that cannot be the root cause of a later failure (a statistic of one matrix state; the D9 class,
@@ -126,6 +126,37 @@ def _snap(b):
     return d
 
 
+def _stat_results_private(b):
+    """what a read-only statistic hands out is the caller's: writing into it must not change the object, and asking
+    again must give the same answer.  Returns the names of the statistics whose result is (a view of) internal
+    state.  `tmean(unscale=True)` is documented-by-code to BE the location array (as `b.location` is) and is not
+    probed."""
+    if b.mat.shape[0] == 0:
+        return []
+    bad = []
+    keep = (b.mat.copy(), numpy.array(b.location, dtype=float), numpy.array(b.scale, dtype=float))
+    for name in STATS + ["targmax", "targmin"]:
+        for un in ((True, False) if name in STATS else (None,)):
+            if name == "tmean" and un:
+                continue
+            call = (lambda: getattr(b, name)(unscale=un)) if un is not None else (lambda: getattr(b, name)())
+            r = call()
+            if not isinstance(r, numpy.ndarray) or r.size == 0 or not r.flags.writeable:
+                continue
+            before = r.copy()
+            r[...] = 97 if r.dtype.kind in "iu" else -4.0625e5
+            again = numpy.asarray(call())
+            same_state = _same(b.mat, keep[0]) and _same(numpy.asarray(b.location, dtype=float), keep[1]) and \
+                _same(numpy.asarray(b.scale, dtype=float), keep[2])
+            if not same_state or not _same(numpy.asarray(again, dtype=float), numpy.asarray(before, dtype=float)):
+                bad.append(name if un is None else "%s(unscale=%s)" % (name, un))
+                try:                # put the value back so that the rest of the history is still observable
+                    again[...] = before
+                except Exception:
+                    pass
+    return bad
+
+
 def _layout(a, how):
     """the same values in another memory layout: Fortran order, or a strided view of a larger buffer"""
     if how == "F":
@@ -141,10 +172,39 @@ class _ProbeMismatch(Exception):
     pass
 
 
+def _build(cls, raw, names, grps, via):
+    """the matrix built from raw values: `from_numpy`, or the second factory `from_pandas` (a table with a taxa
+    column, optionally a taxa_grp column, and one column per trait, read as RAW values)"""
+    if via != "pandas" or names is None:
+        return cls.from_numpy(raw, taxa=names, taxa_grp=grps)
+    import pandas
+    d = {"taxa": names}
+    if grps is not None:
+        d["taxa_grp"] = grps
+    for j in range(raw.shape[1]):
+        d["trait%d" % j] = raw[:, j]
+    df = pandas.DataFrame(d)
+    return cls.from_pandas(df, taxa_col="taxa", taxa_grp_col="taxa_grp" if grps is not None else None)
+
+
+def _dtype_ok(rows, dtype):
+    """can every entry of the canonical rows be held EXACTLY by an array of this dtype?"""
+    vals = [x for r in rows for x in r]
+    if dtype.startswith("int"):
+        lim = 2 ** (31 if dtype == "int32" else 62)
+        return all(x not in ("nan", None) and Fraction(x).denominator == 1 and abs(Fraction(x)) < lim for x in vals)
+    if dtype == "float32":
+        return all(x in ("nan", None) or Fraction(float(numpy.float32(float(Fraction(x))))) == Fraction(x) for x in vals)
+    return dtype == "float64"
+
+
 def _operand(cls, v, t, grp, notaxa=False, me=None):
     if v["as"] == "self":
         return me, {}
     rows = _layout(_np_rows(v["rows"], t), v.get("layout"))
+    if v.get("dtype") and v["as"] == "nd" and _dtype_ok(v["rows"], v["dtype"]):
+        # the same raw values handed over in another dtype (whole numbers as integers, short dyadics as float32)
+        rows = rows.astype(v["dtype"])
     g = _grps(v["taxa"]) if grp else None
     names = None if notaxa else _names(v["taxa"])
     if v["as"] == "bv":
@@ -169,7 +229,8 @@ def _pyobj(obj):
     if k == "int":
         return int(obj["i"])
     if k == "list":
-        return [int(i) for i in obj["is"]]
+        ix = [int(i) for i in obj["is"]]
+        return numpy.array(ix, dtype=int) if obj.get("np") and ix else ix
     if k == "slice":
         return slice(obj.get("a"), obj.get("b"), obj.get("c"))
     if k == "mask":
@@ -182,8 +243,10 @@ def _sort_perm(ids, grp):
     return sorted(range(len(ids)), key=lambda i: ((ids[i] % 3) if grp else 0, "t%d" % ids[i]))
 
 
-def _apply(cls, b, op, t, generic, grp=False, notaxa=False):
-    """apply one taxa operation; returns the resulting matrix (in-place operations return `b`)"""
+def _apply(cls, b, op, t, generic, grp=False, notaxa=False, ax=0):
+    """apply one taxa operation; returns the resulting matrix (in-place operations return `b`).
+    `generic`: through the axis-generic entry points (select / delete / insert / adjoin / remove / append / concat /
+    sort / group with `axis = ax`, 0 or -2: both name the taxa axis of the (n, t) matrix)"""
     k = op["op"]
     if k == "copy":
         return b.copy() if op.get("how") == "method" else copy.copy(b)
@@ -192,7 +255,7 @@ def _apply(cls, b, op, t, generic, grp=False, notaxa=False):
     if k == "probe":
         # a read-only request on the CURRENT object whose result is thrown away: the object stays, the answer
         # must be the selection of what unscale() returns now (whatever was asked, or edited, before)
-        r = b.select(op["idx"], axis=0) if generic else b.select_taxa(op["idx"])
+        r = b.select(op["idx"], axis=ax) if generic else b.select_taxa(op["idx"])
         want = numpy.take(b.unscale(), op["idx"], axis=0)
         got = r.unscale()
         if got.shape != want.shape or not numpy.allclose(got, want, rtol=1e-9, atol=1e-9 * (1 + numpy.nanmax(
@@ -202,53 +265,74 @@ def _apply(cls, b, op, t, generic, grp=False, notaxa=False):
         return b
     if k == "sort":
         if op.get("group"):
-            b.group(axis=0) if generic else b.group_taxa()
+            b.group(axis=ax) if generic else b.group_taxa()
         else:
-            b.sort(None, axis=0) if generic else b.sort_taxa()
+            b.sort(None, axis=ax) if generic else b.sort_taxa()
         return b
     if k == "select":
         ix = _index(op.get("form", "list"), op["idx"])
-        return b.select(ix, axis=0) if generic else b.select_taxa(ix)
+        return b.select(ix, axis=ax) if generic else b.select_taxa(ix)
     if k == "delete":
         ix = _pyobj(op["obj"]) if "obj" in op else _index(op.get("form", "list"), op["idx"])
-        return b.delete(ix, axis=-2) if generic else b.delete_taxa(ix)
+        return b.delete(ix, axis=-2 - ax) if generic else b.delete_taxa(ix)
     if k == "insert":
         vals, kw = _operand(cls, op["vals"], t, grp, notaxa, b)
         if "obj" in op:
             pos = _pyobj(op["obj"])
         else:
             pos = int(op["k"]) if op.get("kform") == "int" else [int(op["k"])]
-        return b.insert(pos, vals, axis=0, **kw) if generic else b.insert_taxa(pos, vals, **kw)
+        return b.insert(pos, vals, axis=ax, **kw) if generic else b.insert_taxa(pos, vals, **kw)
     if k == "adjoin":
         vals, kw = _operand(cls, op["vals"], t, grp, notaxa, b)
-        return b.adjoin(vals, axis=0, **kw) if generic else b.adjoin_taxa(vals, **kw)
+        return b.adjoin(vals, axis=ax, **kw) if generic else b.adjoin_taxa(vals, **kw)
     if k == "reorder":
         b.reorder_taxa(numpy.array(op["idx"], dtype=int))
         return b
     if k == "remove":
         ix = _index(op.get("form", "list"), op["idx"])
         if generic:
-            b.remove(ix, axis=0)
+            b.remove(ix, axis=ax)
         else:
             b.remove_taxa(ix)
         return b
     if k == "append":
         vals, kw = _operand(cls, op["vals"], t, grp, notaxa, b)
         if generic:
-            b.append(vals, axis=0, **kw)
+            b.append(vals, axis=ax, **kw)
         else:
             b.append_taxa(vals, **kw)
         return b
     if k == "incorp":
         vals, kw = _operand(cls, op["vals"], t, grp, notaxa, b)
         pos = int(op["k"]) if op.get("kform") == "int" else [int(op["k"])]
-        b.incorp_taxa(pos, vals, **kw)
+        if generic:
+            b.incorp(pos, vals, axis=ax, **kw)
+        else:
+            b.incorp_taxa(pos, vals, **kw)
         return b
     if k == "concat":
         others = [cls.from_numpy(_np_rows(o["rows"], t), taxa=None if notaxa else _names(o["taxa"]),
                                  taxa_grp=_grps(o["taxa"]) if grp else None) for o in op["others"]]
-        return cls.concat([b] + others, axis=0) if generic else cls.concat_taxa([b] + others)
+        return cls.concat([b] + others, axis=ax) if generic else cls.concat_taxa([b] + others)
     raise ValueError(k)
+
+
+def _nat(v):
+    """an arg-extremum as the driver reads it (a natural number); anything else — negative, fractional, NaN —
+    becomes a position no matrix has, so that the Spec clause fails instead of the decoder"""
+    try:
+        f = Fraction(v)
+        return int(f) if f.denominator == 1 and 0 <= f < 2 ** 31 else 2 ** 32 - 1
+    except Exception:
+        return 2 ** 32 - 1
+
+
+def _for_driver(s, keep):
+    d = {k: s[k] for k in keep if k in s}
+    for k in ("targmax", "targmin"):
+        if k in d:
+            d[k] = [_nat(x) for x in d[k]] if isinstance(d[k], list) else d[k]
+    return d
 
 
 def _lean_op(op, t):
@@ -295,7 +379,7 @@ def _mag(cols):
     return float(m)
 
 
-ALL_STYLES = ["int", "int", "dyadic", "offset", "two", "ties", "constant", "huge", "constnan", "tiny", "off25k"]
+ALL_STYLES = ["int", "int", "dyadic", "offset", "two", "ties", "constant", "huge", "constnan", "tiny", "off25k", "constfloat"]
 QUIET_STYLES = ["int", "dyadic", "offset", "tiny", "off25k"]
 # kinds whose correspondence comparison does not track conditioning (|x| / deviation) stay with these
 BASE_STYLES = ["int", "int", "dyadic", "offset", "two", "ties", "constant", "huge", "constnan"]
@@ -305,12 +389,15 @@ class C15(Prop):
     PID = "C15"
     MODULE = "PybropsModel.Props.C15"
     N_QUICK = 450
-    N_THOROUGH = 6000
+    N_THOROUGH = 4000
     RULE = ("kind history (70 %): raw matrices of 1-12 (occasionally 49/98/103/130) taxa x 1-4 traits over integers / dyadic "
             "rationals with constant columns (also constant among the observed taxa with NaN), NaN entries (also whole NaN "
             "columns), offsets of 1e6, of 1e9 with spread 0.5 and of 25000 with differences of 1e-3, spreads of 1e-9, "
-            "ties for the arg-extrema; C / Fortran / strided memory layout (also of operands); built with from_numpy in "
-            "the three classes, with or without taxa labels; histories of 0-5 taxa operations "
+            "constants whose float mean is inexact (0.1, 0.7, 1-2^-52, 1/3, 1e9+0.1; D26 regression), "
+            "ties for the arg-extrema; C / Fortran / strided memory layout (also of operands); built with from_numpy (12 %: "
+            "the second factory from_pandas) in the three classes, with or without taxa labels, through the specific or the "
+            "axis-generic entry points (axis 0 or -2); ndarray operands also as int64 / int32 / float32 arrays when "
+            "they hold the values exactly; position lists also as numpy arrays; histories of 0-5 taxa operations "
             "(select with repeats, negative positions, the identity / delete by int, list, slice, boolean mask / insert at one or "
             "several positions, one value each or one broadcast / adjoin, with ndarray, matrix, SUBCLASS-matrix operands or "
             "the matrix ITSELF as operand, taxa_grp present or absent, copy / deepcopy, in-place reorder / sort_taxa / "
@@ -319,9 +406,12 @@ class C15(Prop):
             "stream with bad positions / trait counts); after every step unscale(), location, scale, the "
             "stored matrix and all eight statistics (unscale=True and False) are observed on the SAME object, the caller's "
             "input arrays are overwritten after use, and after every copy-on-manipulation step the operand's arrays and an "
-            "array returned by unscale() are overwritten (two-object aliasing).  kind state (14 %): ONE object and 1-5 direct "
-            "edits (element write, mat / location / scale re-assigned incl. scale 0, in-place remove / reorder / sort / append / "
-            "incorp) with the full query after each.  kind scaledh (12 %): DenseScaledMatrix of 2 or 3 axes, C / F / strided, "
+            "array returned by unscale() are overwritten (two-object aliasing); after every step the result of every statistic "
+            "(except tmean(unscale=True), which IS the location array) is overwritten and asked again.  kind state (14 %): ONE "
+            "object and 1-5 direct edits (element write, mat / location / scale re-assigned as arrays or Reals incl. scale 0, "
+            "in-place remove / reorder / sort / append / incorp, and select / delete / insert / adjoin whose result — judged "
+            "by the full Spec against from_numpy of what unscale() returned before — replaces the object) with the full "
+            "query after each.  kind scaledh (12 %): DenseScaledMatrix of 2 or 3 axes, C / F / strided, "
             "parameters given as float arrays, INTEGER arrays, Python float / int scalars or defaulted, and 1-6 calls of "
             "transform / untransform (new array or an array already held, also self.mat; copy True / False) and rescale / "
             "unscale (inplace True / False), identities and contents of all reachable arrays observed after each call.  "
@@ -347,6 +437,8 @@ class C15(Prop):
                    "1e-9 relative / 1e-12*(1+max|x|) absolute of the exact value (times |x|/deviation for standardised values)",
                    "NaN is the only non-finite input; several insert positions are given sorted (unsorted: not modelled)",
                    "statistics are not requested on a matrix with 0 taxa (numpy raises there)",
+                   "tmean(unscale=True) returns the object's location array itself (as the `location` attribute does); writing "
+                   "into that array is treated like re-assigning `location`, not as a read-only history, and is not probed",
                    "kind state / the `self:` clauses: for a trait with a NaN location or scale only the unscaling formula "
                    "is judged (unscale() is NaN throughout, the statistics come from the stored column)",
                    "DenseScaledMatrix: location and scale are two different arrays, scale entries are non-zero, transform / "
@@ -355,6 +447,8 @@ class C15(Prop):
     # ------------------------------------------------------------------ corpus
     def corpus(self):
         f01 = canon.enc(0.1)
+        f07 = canon.enc(0.7)
+        f1m = canon.enc(0.9999999999999998)
         A = [[1, 5, 7], [2, 5, "nan"], [4, 5, 9]]
         B = [[10, 50, 70], [20, 60, 80]]
         nc = [[1, 7], [2, 3], [4, 9]]          # no constant trait, no NaN
@@ -380,8 +474,18 @@ class C15(Prop):
             # inherited in-place remove: raw values kept, location / scale stale
             h(ntrait=2, rows=nc, taxa=[0, 1, 2], ops=[{"op": "remove", "idx": [0]}]),
             h(ntrait=1, rows=[[4], [5], [6]], taxa=[0, 1, 2], ops=[{"op": "remove", "idx": [0, 2]}]),
-            # constant trait whose float mean is inexact: scale 1.4e-17 instead of 1, stored values -1
+            # D26 (fixed in /repo by <commit>): constant trait whose float mean is inexact — the scale was 1.4e-17
+            # instead of 1 and every taxon stored as -1; regression cases (fresh matrix, inside select_taxa / adjoin_taxa /
+            # insert_taxa / delete_taxa, next to a varying trait, with a NaN, in the estimated classes, 49 taxa)
             h(ntrait=1, rows=[[f01], [f01], [f01]], taxa=[0, 1, 2], ops=[]),
+            h(ntrait=2, rows=[[f01, 1], [f01, 2], [f01, 4], [f07, 8]], taxa=[0, 1, 2, 3], cls="EBV",
+              ops=[{"op": "select", "idx": [2, 0, 1]}, {"op": "adjoin", "vals": {"as": "nd", "rows": [[f01, 3]], "taxa": [4]}},
+                   {"op": "delete", "idx": [0]}]),
+            h(ntrait=2, rows=[[f1m, "nan"], [f1m, f07], ["nan", f07], [f1m, f07], [3, f07]], taxa=[0, 1, 2, 3, 4], cls="GEBV",
+              generic=True, ops=[{"op": "select", "idx": [0, 1, 3]},
+                                 {"op": "insert", "k": 1, "kform": "int", "vals": {"as": "bv", "rows": [[f1m, f07]], "taxa": [5]}}]),
+            h(ntrait=2, rows=[[f01, f07], [f01, "nan"], ["nan", f07], [f01, f07]], taxa=[0, 1, 2, 3], ops=[{"op": "delete", "idx": [3]}]),
+            h(ntrait=1, rows=[[f01]] * 49, taxa=list(range(49)), ops=[{"op": "delete", "obj": {"kind": "slice", "a": 5, "b": 40, "c": None}}]),
             # the three seeded kinds: huge offset with spread 0.5; unscale -> in-place edit -> unscale/select;
             # constant trait with a NaN (also: observed once)
             h(ntrait=2, rows=[[10 ** 9, "1999999999/2"], ["2000000001/2", 10 ** 9], ["1999999999/2", "2000000001/2"],
@@ -421,6 +525,25 @@ class C15(Prop):
                    {"op": "insert", "k": 2, "kform": "list", "vals": {"as": "nd", "rows": nb, "taxa": [5, 6], "layout": "strided"}}]),
             h(ntrait=2, rows=nc, taxa=[0, 1, 2], notaxa=True, layout="strided",
               ops=[{"op": "select", "idx": [2, 0]}, {"op": "adjoin", "vals": {"as": "nd", "rows": nb, "taxa": [3, 4]}}]),
+            # round 4: the operand's dtype is not the matrix's (whole-number raw values as int64 / int32, short dyadics as
+            # float32) — the retained non-integer raw values must survive
+            h(ntrait=2, rows=[["41/4", "3/8"], ["-7/2", "nan"], ["5/16", "9/2"]], taxa=[0, 1, 2],
+              ops=[{"op": "adjoin", "vals": {"as": "nd", "rows": [[3, -2], [7, 0]], "taxa": [3, 4], "dtype": "int64"}},
+                   {"op": "insert", "k": 1, "kform": "int", "vals": {"as": "nd", "rows": [[5, 1]], "taxa": [5], "dtype": "int32"}},
+                   {"op": "insert", "obj": {"kind": "list", "is": [0, 4], "np": True},
+                    "vals": {"as": "nd", "rows": [["1/2", "-3/4"], ["nan", 8]], "taxa": [6, 7], "dtype": "float32"}}]),
+            {"kind": "state", "cls": "GEBV", "generic": True, "axis": -2, "grp": True, "ntrait": 2, "via": "pandas",
+             "rows": [["41/4", "3/8"], ["-7/2", 2], ["5/16", "9/2"], [6, "nan"]], "taxa": [0, 1, 2, 3],
+             "edits": [{"e": "setscale", "scale": [2, 2], "scalar": True}, {"e": "setloc", "loc": ["-7/4", "-7/4"], "scalar": True},
+                       {"e": "op", "op": "select", "idx": [3, -4, 1], "form": "array"},
+                       {"e": "op", "op": "append", "vals": {"as": "nd", "rows": [[3, -2]], "taxa": [4], "dtype": "int64"}},
+                       {"e": "op", "op": "adjoin", "vals": {"as": "self"}},
+                       {"e": "op", "op": "delete", "obj": {"kind": "mask", "m": [True, False, False, True, False, False, False, True]}},
+                       {"e": "setitem", "j": 0, "i": 1, "v": "5/2"},
+                       {"e": "op", "op": "insert", "k": 2, "kform": "list", "vals": {"as": "bv", "rows": [[1, 1]], "taxa": [9]}}]},
+            # sizes past small-integer accumulators: 130 taxa, extrema at positions 129 and 128
+            h(ntrait=2, rows=[[i, 260 - 2 * i] for i in range(128)] + [[-7, 300], [500, -40]], taxa=list(range(130)),
+              ops=[{"op": "select", "idx": [129, 128, 5, -1, 64, 127]}], cls="EBV"),
             # one object, queried after each direct edit (the clauses that hold in every state)
             {"kind": "state", "cls": "BV", "generic": False, "grp": True, "ntrait": 2, "rows": nc + [[8, 1]], "taxa": [0, 1, 2, 3],
              "edits": [{"e": "op", "op": "remove", "idx": [0, 1], "form": "list"}, {"e": "setitem", "j": 1, "i": 0, "v": "5/2"},
@@ -442,9 +565,14 @@ class C15(Prop):
             {"kind": "scaledh", "ntrait": 2, "rows": A_2 , "form": "default", "loc": [0, 0], "scale": [1, 1],
              "steps": [{"op": "rescale", "inplace": False}, {"op": "rescale", "inplace": True},
                        {"op": "untransform", "copy": True, "ref": 0}]},
-            # D26 in the second copy of the mechanism: DenseScaledMatrix.rescale on three times 0.1
+            # D26 in the second copy of the mechanism (fixed by the same commit): DenseScaledMatrix.rescale on three times 0.1,
+            # in place and as a copy, two and three axes, after an unscale in place
             {"kind": "scaledh", "ntrait": 1, "rows": [[f01], [f01], [f01]], "form": "default", "loc": [0], "scale": [1],
              "steps": [{"op": "rescale", "inplace": True}]},
+            {"kind": "scaledh", "ntrait": 2, "rows": [[f01, 1], [f01, 5], [f01, 2], [f01, 2], [f01, 7], [f01, 3]], "form": "array",
+             "loc": [0, 1], "scale": [1, 2], "shape": [2, 3],
+             "steps": [{"op": "rescale", "inplace": False}, {"op": "unscale", "inplace": True}, {"op": "rescale", "inplace": True},
+                       {"op": "rescale", "inplace": True}]},
             {"kind": "scaled", "ntrait": 3, "rows": A, "loc": [1, 2, 3], "scale": [2, 4, 1], "x": [[3, 6, 4]]},
             {"kind": "scaled", "ntrait": 1, "rows": [[5], [5]], "loc": [0], "scale": [1], "x": [[1], ["nan"]]},
         ]
@@ -474,6 +602,12 @@ class C15(Prop):
         elif style == "constant":
             v = rng.choice([0, 5, -3, Fraction(7, 4), 10 ** 6 + 1])
             c = [v] * n
+        elif style == "constfloat":     # a constant whose float mean need not be the constant (D26): 0.1, 0.7, 1 - 2**-52, ...
+            v = Fraction(rng.choice([0.1, 0.7, 0.9999999999999998, 1 / 3, 1e9 + 0.1, -2.2, 1e-9 / 3]))
+            c = [v] * n
+            if n > 1 and rng.random() < 0.3:
+                for i in rng.sample(range(n), rng.randint(1, n - 1)):
+                    c[i] = "nan"
         elif style == "two":
             a, b = rng.sample([-2, 0, 1, 3, 8], 2)
             c = [rng.choice([a, b]) for _ in range(n)]
@@ -547,6 +681,10 @@ class C15(Prop):
                 d["layout"] = lay
             if d["as"] == "bv" and cls_name == "BV" and rng.random() < 0.25:
                 d["cls"] = rng.choice(["EBV", "GEBV"])       # an operand of a subclass is an operand
+            if d["as"] == "nd" and rng.random() < 0.45:
+                cands = [dt for dt in ("int64", "int32", "float32") if _dtype_ok(d["rows"], dt)]
+                if cands:
+                    d["dtype"] = rng.choice(cands)           # whole-number raw values as an integer array, ...
             if allow_self and rng.random() < 0.07:
                 d = {"as": "self"}                           # the matrix joined to itself
                 fresh[0] -= m
@@ -619,6 +757,8 @@ class C15(Prop):
                         op = {"op": k, "obj": {"kind": "mask", "m": m}}
                     elif r2 < 0.55 and idx:
                         op = {"op": k, "obj": {"kind": "list", "is": [i - cur if rng.random() < 0.5 else i for i in idx]}}
+                        if rng.random() < 0.4:
+                            op["obj"]["np"] = True
                     elif r2 < 0.7 and idx:
                         i0 = idx[0]
                         op = {"op": k, "obj": {"kind": "int", "i": i0 - cur if rng.random() < 0.5 else i0}}
@@ -646,6 +786,8 @@ class C15(Prop):
                     elif r2 < 0.65:             # one value before each of several sorted positions
                         ps = sorted(rng.randint(0, cur) for _ in range(q))
                         op = {"op": k, "obj": {"kind": "list", "is": [neg(p) for p in ps]}, "vals": v}
+                        if rng.random() < 0.4:
+                            op["obj"]["np"] = True
                     elif r2 < 0.9:              # a single value broadcast to several positions
                         v = operand(1)
                         ps = sorted(rng.randint(0, cur) for _ in range(rng.choice([2, 3])))
@@ -697,6 +839,10 @@ class C15(Prop):
             case["layout"] = lay
         if notaxa:
             case["notaxa"] = True
+        elif rng.random() < 0.12:
+            case["via"] = "pandas"          # the second factory: a table of raw values
+        if case["generic"] and rng.random() < 0.5:
+            case["axis"] = -2               # the taxa axis named from the end
         return case
 
     def _state(self, rng):
@@ -710,7 +856,7 @@ class C15(Prop):
         val = lambda: canon.enc(rng.choice([0, 1, -1, 2, Fraction(1, 2), Fraction(-7, 4), 3, 10, Fraction(5, 8)]))
         for _ in range(rng.choice([1, 2, 2, 3, 3, 4, 5])):
             k = rng.choice(["setitem", "setitem", "setmat", "setloc", "setscale", "remove", "remove", "reorder",
-                            "append", "incorp", "sort"])
+                            "append", "incorp", "sort", "select", "delete", "insert", "adjoin"])
             if k == "setitem":
                 edits.append({"e": k, "j": rng.randrange(t), "i": rng.randrange(cur),
                               "v": "nan" if rng.random() < 0.12 else val()})
@@ -718,12 +864,18 @@ class C15(Prop):
                 edits.append({"e": k, "rows": self._rows(rng, cur, t, styles=[rng.choice(["int", "dyadic", "two", "ties", "constant"])
                                                                          for _ in range(t)])})
             elif k == "setloc":
-                edits.append({"e": k, "loc": [canon.enc(rng.choice([0, 1, -2, Fraction(1, 2), 10 ** 6, Fraction(-7, 4), 100]))
-                                              for _ in range(t)]})
+                loc = [canon.enc(rng.choice([0, 1, -2, Fraction(1, 2), 10 ** 6, Fraction(-7, 4), 100])) for _ in range(t)]
+                e = {"e": k, "loc": loc}
+                if rng.random() < 0.3:              # a Real: repeated for every trait by the setter
+                    e = {"e": k, "loc": [loc[0]] * t, "scalar": True}
+                edits.append(e)
             elif k == "setscale":
-                edits.append({"e": k, "scale": [canon.enc(rng.choice([1, 2, 4, Fraction(1, 2), 3, Fraction(5, 4), 10, 10,
-                                                                      0 if rng.random() < 0.3 else 1]))
-                                                for _ in range(t)]})
+                sc = [canon.enc(rng.choice([1, 2, 4, Fraction(1, 2), 3, Fraction(5, 4), 10, 10, 0 if rng.random() < 0.3 else 1]))
+                      for _ in range(t)]
+                e = {"e": k, "scale": sc}
+                if rng.random() < 0.3:
+                    e = {"e": k, "scale": [sc[0]] * t, "scalar": True}
+                edits.append(e)
             elif k == "remove":
                 if cur <= 1:
                     continue
@@ -741,19 +893,50 @@ class C15(Prop):
                 edits.append({"e": "op", "op": "reorder", "idx": idx})
             elif k == "sort":
                 edits.append({"e": "op", "op": "sort", "group": rng.random() < 0.5})
+            elif k == "select":
+                # copy-on-manipulation requests on the object AS IT IS NOW (stale / re-assigned location and scale):
+                # the result must be from_numpy of what unscale() returns now; it replaces the object
+                m = rng.randint(1, min(cur + 2, 8))
+                idx = [rng.randrange(cur) for _ in range(m)]
+                if rng.random() < 0.3:
+                    idx = [i - cur if rng.random() < 0.5 else i for i in idx]
+                edits.append({"e": "op", "op": "select", "idx": idx, "form": rng.choice(["list", "array"])})
+                cur = m
+            elif k == "delete":
+                if cur <= 1:
+                    continue
+                idx = rng.sample(range(cur), rng.randint(1, cur - 1))
+                if rng.random() < 0.5:
+                    edits.append({"e": "op", "op": "delete", "obj": {"kind": "mask", "m": [i in set(idx) for i in range(cur)]}})
+                else:
+                    edits.append({"e": "op", "op": "delete", "idx": idx, "form": "list"})
+                cur -= len(idx)
             else:
                 m = rng.choice([1, 1, 2, 3])
                 v = {"as": rng.choice(["nd", "nd", "bv"]), "rows": self._rows(rng, m, t, pool=["int", "dyadic", "two", "ties", "constant"]),
                      "taxa": list(range(fresh[0], fresh[0] + m))}
                 fresh[0] += m
+                if v["as"] == "nd" and rng.random() < 0.4:
+                    cands = [dt for dt in ("int64", "int32", "float32") if _dtype_ok(v["rows"], dt)]
+                    if cands:
+                        v["dtype"] = rng.choice(cands)
+                if k in ("insert", "adjoin") and cur <= 6 and rng.random() < 0.15:
+                    v = {"as": "self"}          # the object in its current state as its own operand
+                    fresh[0] -= m
+                    m = cur
                 e = {"e": "op", "op": k, "vals": v}
-                if k == "incorp":
+                if k in ("incorp", "insert"):
                     e["k"] = rng.randint(0, cur)
                     e["kform"] = rng.choice(["int", "list"])
                 edits.append(e)
                 cur += m
-        return {"kind": "state", "cls": rng.choice(["BV", "BV", "EBV", "GEBV"]), "generic": rng.random() < 0.3,
+        case = {"kind": "state", "cls": rng.choice(["BV", "BV", "EBV", "GEBV"]), "generic": rng.random() < 0.3,
                 "grp": rng.random() < 0.5, "ntrait": t, "rows": rows, "taxa": list(range(n)), "edits": edits}
+        if rng.random() < 0.15:
+            case["via"] = "pandas"
+        if case["generic"] and rng.random() < 0.5:
+            case["axis"] = -2
+        return case
 
     def _scaledh(self, rng):
         """a DenseScaledMatrix object and 1-6 calls of transform / untransform / rescale / unscale"""
@@ -773,7 +956,7 @@ class C15(Prop):
             loc, scale = [loc[0]] * t, [scale[0]] * t
         case = {"kind": "scaledh", "ntrait": t, "rows": rows, "form": form, "loc": [canon.enc(v) for v in loc],
                 "scale": [canon.enc(v) for v in scale]}
-        if n in (4, 6) and rng.random() < 0.3:
+        if n in (4, 6) and rng.random() < 0.5:
             case["shape"] = [2, n // 2]
         lay = rng.choice(["C", "C", "F", "strided"])
         if lay != "C":
@@ -892,12 +1075,14 @@ class C15(Prop):
         raw = _layout(_np_rows(case["rows"], t), case.get("layout"))
         raw0 = raw.copy()
         grp = bool(case.get("grp"))
-        b = cls.from_numpy(raw, taxa=None if notaxa else _names(case["taxa"]),
-                           taxa_grp=_grps(case["taxa"]) if grp else None)
+        b = _build(cls, raw, None if notaxa else _names(case["taxa"]), _grps(case["taxa"]) if grp else None, case.get("via"))
+        ax = int(case.get("axis", 0))
         same = bool(_same(raw0, raw))
         raw[...] = 31337.0            # the caller's array is the caller's: overwriting it must not reach the matrix
         steps = [_snap(b)]
         alias = []                    # (step, what) — two-object aliasing observed along the history
+        for nm in _stat_results_private(b):
+            alias.append((0, "statistic_result_is_internal_state:" + nm))
         watch = []
         def settle(obj):
             # the caller of a copy-on-manipulation method still holds the operand and expects what it held then
@@ -911,13 +1096,15 @@ class C15(Prop):
             tt = op.get("vals", {}).get("ntrait", t) if isinstance(op.get("vals"), dict) else t
             prev = b
             try:
-                b = _apply(cls, b, op, tt, case.get("generic", False), grp, notaxa)
+                b = _apply(cls, b, op, tt, case.get("generic", False), grp, notaxa, ax)
             except _ProbeMismatch as e:
                 alias.append((i + 1, "stale_answer_on_one_object"))
             except Exception as e:      # attributed to the operation by the judge
                 steps.append({"raised": canon.exc_tag(e), "text": f"{type(e).__name__}: {e}"[:200]})
                 break
             steps.append(_snap(b))
+            for nm in _stat_results_private(b):
+                alias.append((i + 1, "statistic_result_is_internal_state:" + nm))
             if b is prev and op["op"] in ("select", "delete", "insert", "adjoin", "copy", "deepcopy", "concat"):
                 # the "new" matrix is the operand itself: whatever is done to it later is done to the operand
                 watch.append((i + 1, b, steps[-1]["unscale"]))
@@ -953,9 +1140,16 @@ class C15(Prop):
         cls = _classes()[case["cls"]]
         t = case["ntrait"]
         grp = bool(case.get("grp"))
-        b = cls.from_numpy(_np_rows(case["rows"], t), taxa=_names(case["taxa"]),
-                           taxa_grp=_grps(case["taxa"]) if grp else None)
+        b = _build(cls, _np_rows(case["rows"], t), _names(case["taxa"]), _grps(case["taxa"]) if grp else None, case.get("via"))
+        ax = int(case.get("axis", 0))
         steps = [_snap(b)]
+
+        def probe():
+            bad = _stat_results_private(b)
+            if bad:
+                steps[-1]["stat_alias"] = bad
+
+        probe()
         for e in case["edits"]:
             try:
                 k = e["e"]
@@ -964,12 +1158,18 @@ class C15(Prop):
                 elif k == "setmat":
                     b.mat = _np_rows(e["rows"], t)
                 elif k == "setloc":
-                    b.location = numpy.array([_f(v) for v in e["loc"]], dtype=float)
+                    # the setter takes an array or a Real (repeated for every trait)
+                    b.location = _f(e["loc"][0]) if e.get("scalar") else numpy.array([_f(v) for v in e["loc"]], dtype=float)
                 elif k == "setscale":
-                    b.scale = numpy.array([_f(v) for v in e["scale"]], dtype=float)
+                    b.scale = _f(e["scale"][0]) if e.get("scalar") else numpy.array([_f(v) for v in e["scale"]], dtype=float)
                 elif k == "op":
-                    r = _apply(cls, b, e, t, case.get("generic", False), grp)
-                    if r is not b:
+                    r = _apply(cls, b, e, t, case.get("generic", False), grp, False, ax)
+                    if e["op"] in ("select", "delete", "insert", "adjoin"):
+                        # a copy-on-manipulation request on an object in ANY state: the result replaces the object
+                        if r is b:
+                            raise RuntimeError("copy-on-manipulation routine returned the object itself")
+                        b = r
+                    elif r is not b:
                         raise RuntimeError("in-place routine returned another object")
                 else:
                     raise ValueError(k)
@@ -977,6 +1177,7 @@ class C15(Prop):
                 steps.append({"raised": canon.exc_tag(ex), "text": f"{type(ex).__name__}: {ex}"[:200]})
                 break
             steps.append(_snap(b))
+            probe()
         return {"steps": steps}
 
     # ---- kind "scaledh": a history of DenseScaledMatrix calls; every array the caller can reach keeps an
@@ -1098,7 +1299,7 @@ class C15(Prop):
                     edits.append(e)
             base = {"cols": _cols(case["rows"], t), "taxa": case["taxa"], "edits": edits}
             keep = ("taxa", "mat", "unscale", "loc", "scale", "targmax", "targmin", "nonfinite", *STATS)
-            ob = [{"raised": True} if "raised" in s else {k: s[k] for k in keep if k in s} for s in obs["steps"]]
+            ob = [{"raised": True} if "raised" in s else _for_driver(s, keep) for s in obs["steps"]]
             return [dict(base, op="c15.state", needs_loc_scale=case["cls"] != "BV", repaired=_repaired()),
                     dict(base, op="c15.spec_state", obs=ob)]
         if case["kind"] == "scaledh":
@@ -1142,7 +1343,7 @@ class C15(Prop):
             if "raised" in s:
                 ob.append({"raised": True})
             else:
-                d = {k: s[k] for k in keep if k in s}
+                d = _for_driver(s, keep)
                 if d.get("taxa") is None:
                     d["taxa"] = []
                 ob.append(d)
@@ -1195,7 +1396,7 @@ class C15(Prop):
             for key in ("targmax", "targmin"):
                 a, b = m[key][j], s[key][j]
                 # equal, or pointing at values that agree to rounding (float noise breaks ties)
-                if a != b and not (b < len(mcol) and _close(m["unscale"][j][a], m["unscale"][j][b], mag)):
+                if a != b and not (isinstance(b, int) and 0 <= b < len(mcol) and _close(m["unscale"][j][a], m["unscale"][j][b], mag)):
                     return f"{key}[{j}]: model {a} vs impl {b}"
         return ""
 
@@ -1247,7 +1448,7 @@ class C15(Prop):
                 continue
             if st.get("taxa_grp") != want and i < len(verdicts) and not verdicts[i].get("invalid_op"):
                 fails.append((i, "taxa"))
-        # ---- which failing clauses the known findings D23-D26 account for.  After an inherited in-place
+        # ---- which failing clauses the known findings D23-D25 account for.  After an inherited in-place
         # routine the location/scale are stale (D24/D25: the clauses about the stored representation and
         # tmean, which returns the location); after append/incorp/concat the raw values themselves are lost
         # (D23/D24: every clause that compares with the true raw values, from then on).  Everything else the
@@ -1276,8 +1477,6 @@ class C15(Prop):
 
         def explained(f):
             i, c = f
-            if c == "standardised:constant:inexact_mean":
-                return True                                   # D26
             if i >= len(stale):
                 return False
             if c == "raised":                                 # D23: concat_taxa of the estimated classes
@@ -1308,7 +1507,7 @@ class C15(Prop):
         if fails:
             detail += f" SPEC fails {fails[:6]} (site={sig['site']} cond={sig['cond']})"
             if sig.get("beyond_known"):
-                detail += (" — not accounted for by the known findings D23-D26: "
+                detail += (" — not accounted for by the known findings D23-D25: "
                            + str([f for f in fails if not explained(f)][:4]))
             i = sig["step"]
             if i < len(steps):
@@ -1343,6 +1542,9 @@ class C15(Prop):
         fails = [(i, c) for i, v in enumerate(verdicts) for c in v.get("fails", [])]
         if len(verdicts) < len(steps) and "raised" in steps[-1] and (len(steps) - 1, "raised") not in fails:
             fails.append((len(steps) - 1, "raised"))
+        for i, st in enumerate(steps):
+            for nm in st.get("stat_alias", []):
+                fails.append((i, "alias:statistic_result_is_internal_state:" + nm))
         sig = None
         if fails:
             i, c = fails[0]
@@ -1538,12 +1740,25 @@ class C15(Prop):
             finally:
                 setattr(obj, name, old)
 
-        def from_numpy_factory(guard=True, center="nanmean", recip=True):
+        def const_guard(mat, location, scale, same=None):
+            # the `const` guard of the fix of D26, as in the tree under test (mutants of OTHER mechanisms keep it, so
+            # that they are not killed by the D26 regression cases alone)
+            if mat.size > 0:
+                m2 = mat.reshape(-1, mat.shape[-1])
+                lo = numpy.fmin.reduce(m2, axis=0)
+                hi = numpy.fmax.reduce(m2, axis=0)
+                const = (lo == hi) if same is None else same(m2, lo, hi)
+                location[const] = lo[const]
+                scale[const] = 1.0
+
+        def from_numpy_factory(guard=True, center="nanmean", recip=True, cguard=True, same=None):
             def from_numpy(cls, mat, taxa=None, taxa_grp=None, trait=None, **kwargs):
                 location = getattr(numpy, center)(mat, axis=0)
                 scale = numpy.nanstd(mat, axis=0)
                 if guard:
                     scale[scale == 0.0] = 1.0
+                if cguard:
+                    const_guard(mat, location, scale, same)
                 mat = (1.0 / scale[None, :]) * (mat - location[None, :])
                 return cls(mat=mat, location=location, scale=scale, taxa=taxa, taxa_grp=taxa_grp, trait=trait,
                            **kwargs)
@@ -1553,6 +1768,7 @@ class C15(Prop):
             location = numpy.nanmean(mat, axis=0)
             scale = numpy.sqrt(numpy.nanmean(mat * mat, axis=0) - location * location)
             scale[scale == 0.0] = 1.0
+            const_guard(mat, location, scale)
             mat = (1.0 / scale[None, :]) * (mat - location[None, :])
             return cls(mat=mat, location=location, scale=scale, taxa=taxa, taxa_grp=taxa_grp, trait=trait, **kwargs)
 
@@ -1668,6 +1884,7 @@ class C15(Prop):
             new_location = numpy.nanmean(out, axis=axes)
             new_scale = numpy.nanstd(out, axis=axes)
             new_scale[new_scale == 0.0] = 1.0
+            const_guard(out, new_location, new_scale)
             out -= new_location
             out *= (1.0 / new_scale)
             if inplace:
@@ -1725,6 +1942,7 @@ class C15(Prop):
             location = numpy.nanmean(mat, axis=0)
             scale = numpy.nanstd(mat, axis=0)
             scale[scale == 0.0] = 1.0
+            const_guard(mat, location, scale)
             mat -= location[None, :]                      # works in the caller's array and keeps it
             mat *= (1.0 / scale[None, :])
             return cls(mat=mat, location=location, scale=scale, taxa=taxa, taxa_grp=taxa_grp, trait=trait, **kwargs)
@@ -1733,6 +1951,7 @@ class C15(Prop):
             location = numpy.nanmean(mat, axis=0)
             scale = numpy.nanstd(mat, axis=0)
             scale[numpy.isclose(scale, 0.0)] = 1.0        # absolute tolerance 1e-8: small spreads count as constant
+            const_guard(mat, location, scale)
             mat = (1.0 / scale[None, :]) * (mat - location[None, :])
             return cls(mat=mat, location=location, scale=scale, taxa=taxa, taxa_grp=taxa_grp, trait=trait, **kwargs)
 
@@ -1740,6 +1959,7 @@ class C15(Prop):
             location = numpy.nanmean(mat, axis=0)
             scale = numpy.nanstd(mat, axis=0)
             scale[scale <= 1e-6 * numpy.abs(location)] = 1.0     # "constant relative to its level"
+            const_guard(mat, location, scale)
             mat = (1.0 / scale[None, :]) * (mat - location[None, :])
             return cls(mat=mat, location=location, scale=scale, taxa=taxa, taxa_grp=taxa_grp, trait=trait, **kwargs)
 
@@ -1748,6 +1968,7 @@ class C15(Prop):
             location = numpy.nanmean(flat, axis=0)
             scale = numpy.nanstd(flat, axis=0)
             scale[scale == 0.0] = 1.0
+            const_guard(flat, location, scale)
             out = (1.0 / scale[None, :]) * (flat - location[None, :])
             return cls(mat=out, location=location, scale=scale, taxa=taxa, taxa_grp=taxa_grp, trait=trait, **kwargs)
 
@@ -1796,6 +2017,7 @@ class C15(Prop):
             new_location = numpy.nanmean(out, axis=axes)
             new_scale = numpy.nanstd(out, axis=axes)
             new_scale[new_scale == 0.0] = 1.0
+            const_guard(out, new_location, new_scale)
             out -= new_location
             out *= (1.0 / new_scale)
             if inplace:
@@ -1811,6 +2033,7 @@ class C15(Prop):
             new_location = numpy.nanmean(out, axis=axes)
             new_scale = numpy.nanstd(out, axis=axes)
             new_scale[new_scale == 0.0] = 1.0
+            const_guard(out, new_location, new_scale)
             out -= new_location
             out *= (1.0 / new_scale)
             self.location = new_location
@@ -1827,6 +2050,7 @@ class C15(Prop):
                 new_location = new_location[0]
                 new_scale = new_scale[0]
             new_scale[new_scale == 0.0] = 1.0
+            const_guard(out, new_location, new_scale)
             out -= new_location
             out *= (1.0 / new_scale)
             if inplace:
@@ -1860,6 +2084,141 @@ class C15(Prop):
             out *= (1 // self.scale) if self.scale.dtype.kind == "i" else (1.0 / self.scale)
             return out
 
+        # -- round 4: the fix of D26 and the mechanisms around it
+        def rescale_prerepair(self, inplace=True):          # D26 as it was: no `const` guard in the second copy
+            out = self.mat if inplace else self.mat.copy()
+            out *= self.scale
+            out += self.location
+            axes = tuple(range(out.ndim - 1))
+            new_location = numpy.nanmean(out, axis=axes)
+            new_scale = numpy.nanstd(out, axis=axes)
+            new_scale[new_scale == 0.0] = 1.0
+            out -= new_location
+            out *= (1.0 / new_scale)
+            if inplace:
+                self.location = new_location
+                self.scale = new_scale
+            return out
+
+        def rescale_guard_leading_axis_only(self, inplace=True):
+            out = self.mat if inplace else self.mat.copy()
+            out *= self.scale
+            out += self.location
+            axes = tuple(range(out.ndim - 1))
+            new_location = numpy.nanmean(out, axis=axes)
+            new_scale = numpy.nanstd(out, axis=axes)
+            new_scale[new_scale == 0.0] = 1.0
+            if out.size > 0:                                # constancy judged on the first slice of a 3-axis matrix
+                first = out[0] if out.ndim > 2 else out
+                lo = numpy.fmin.reduce(first.reshape(-1, out.shape[-1]), axis=0)
+                hi = numpy.fmax.reduce(first.reshape(-1, out.shape[-1]), axis=0)
+                const = (lo == hi)
+                new_location[const] = lo[const]
+                new_scale[const] = 1.0
+            out -= new_location
+            out *= (1.0 / new_scale)
+            if inplace:
+                self.location = new_location
+                self.scale = new_scale
+            return out
+
+        same_isclose = lambda m2, lo, hi: numpy.isclose(lo, hi)                   # spreads below 1e-8 / 1e-5 relative
+        same_ends = lambda m2, lo, hi: m2[0] == m2[-1]                            # first taxon == last taxon
+        same_nanprop = lambda m2, lo, hi: m2.min(axis=0) == m2.max(axis=0)        # NaN-propagating extrema: never
+                                                                                  # constant when a value is missing
+        same_rounded = lambda m2, lo, hi: numpy.round(lo, 6) == numpy.round(hi, 6)
+
+        def unscale_skips_unit_scale(self):
+            # "nothing to do for a trait stored with scale 1" — forgets the location
+            out = self._mat.copy()
+            sel = self._scale != 1.0
+            out[:, sel] = self._scale[sel] * self._mat[:, sel] + self._location[sel]
+            return out
+
+        def tmean_of_unscaled_zero_filled(self, unscale=False):
+            if unscale:
+                return numpy.nan_to_num(self.unscale()).mean(axis=self.taxa_axis)   # missing values count as 0
+            return self._mat.mean(axis=self.taxa_axis)
+
+        def trange_nan_ignoring_on_stored_only(self, unscale=False):
+            out = numpy.nanmax(self._mat, axis=self.taxa_axis) - numpy.nanmin(self._mat, axis=self.taxa_axis)
+            return out * numpy.abs(self._location) if unscale else out             # scaled by the wrong parameter
+
+        # -- round 4: second factory, axis-generic entry points, requests on an object in any state, Real setters
+        import pybrops.core.mat.DenseTaxaTraitMatrix as m_ttm
+        TTM = m_ttm.DenseTaxaTraitMatrix
+        orig_from_pandas = BV.__dict__["from_pandas"].__func__
+
+        def from_pandas_as_scaled(cls, df, location=0.0, scale=1.0, **kwargs):
+            # the table taken as ALREADY standardised values under the given location / scale (defaults 0 / 1)
+            out = orig_from_pandas(cls, df, **kwargs)
+            raw = out.unscale()
+            t = raw.shape[1]
+            out._mat = raw
+            out._location = numpy.repeat(float(location), t)
+            out._scale = numpy.repeat(float(scale), t)
+            return out
+
+        def from_pandas_dropna(cls, df, **kwargs):
+            return orig_from_pandas(cls, df.dropna().reset_index(drop=True), **kwargs)
+
+        def select_negative_axis_to_trait(self, indices, axis=-1, **kwargs):
+            if axis == self.taxa_axis:                      # compared before normalisation: -2 is not 0
+                return self.select_taxa(indices, **kwargs)
+            return self.select_trait(indices, **kwargs)
+
+        orig_generic_delete = TTM.__dict__["delete"]
+
+        def delete_negative_axis_flipped(self, obj, axis=-1, **kwargs):
+            if isinstance(axis, int) and axis < 0 and isinstance(obj, (list, numpy.ndarray)) and not isinstance(obj, slice):
+                o = numpy.asarray(obj)
+                if o.dtype != bool and o.size > 0:
+                    obj = (-1 - o).tolist()                  # "from the end" applied to the positions as well
+            return orig_generic_delete(self, obj, axis=axis, **kwargs)
+
+        def adjoin_pooled_location(self, values, taxa=None, taxa_grp=None, **kwargs):
+            # new location from the stored one (n1 * location + sum of the new values) / (n1 + n2): right only while the
+            # stored location IS the mean of what the matrix holds
+            out = orig_adjoin(self, values, taxa=taxa, taxa_grp=taxa_grp, **kwargs)
+            new = values.unscale() if not isinstance(values, numpy.ndarray) else values
+            n1 = (~numpy.isnan(self._mat)).sum(axis=0)
+            n2 = (~numpy.isnan(new)).sum(axis=0)
+            ok = (n1 + n2) > 0
+            loc = out._location.copy()
+            loc[ok] = (n1[ok] * numpy.nan_to_num(self._location[ok]) + numpy.nansum(new, axis=0)[ok]) / (n1 + n2)[ok]
+            raw = out.unscale()
+            out._location = loc
+            out._mat = (1.0 / out._scale[None, :]) * (raw - loc[None, :])
+            return out
+
+        def insert_in_operand_dtype(self, obj, values, taxa=None, taxa_grp=None, **kwargs):
+            # the combined raw matrix is built in the dtype of the incoming block
+            if isinstance(values, numpy.ndarray) and values.dtype != numpy.float64:
+                class _Cast(type(self)):
+                    def unscale(me):
+                        return type(self).unscale(me).astype(values.dtype)
+                me = copy.copy(self)
+                me.__class__ = _Cast
+                try:
+                    out = orig_insert(me, obj, values, taxa=taxa, taxa_grp=taxa_grp, **kwargs)
+                finally:
+                    me.__class__ = type(self)
+                out.__class__ = type(self)
+                return out
+            return orig_insert(self, obj, values, taxa=taxa, taxa_grp=taxa_grp, **kwargs)
+
+        def scale_setter_per_taxon(self, value):
+            if isinstance(value, numpy.ndarray):
+                self._scale = value
+            else:
+                self._scale = numpy.repeat(value, self.ntaxa)      # a Real repeated along the wrong axis
+
+        def location_setter_int_array(self, value):
+            if isinstance(value, numpy.ndarray):
+                self._location = value
+            else:
+                self._location = numpy.repeat(int(value), self.ntrait)   # a Real truncated to an integer
+
         orig_to_pandas = BV.__dict__["to_pandas"]
 
         def to_pandas_forgets_location(self, *args, **kwargs):
@@ -1872,6 +2231,27 @@ class C15(Prop):
             return df
 
         return [
+            # round 4: D26 (fixed) in both copies of the mechanism, and near-miss versions of the guard
+            ("from_numpy_without_constant_guard_D26", lambda: patch(BV, "from_numpy", from_numpy_factory(cguard=False))),
+            ("rescale_without_constant_guard_D26", lambda: patch(SM, "rescale", rescale_prerepair)),
+            ("rescale_constant_guard_first_slice_only", lambda: patch(SM, "rescale", rescale_guard_leading_axis_only)),
+            ("from_numpy_constant_guard_isclose", lambda: patch(BV, "from_numpy", from_numpy_factory(same=same_isclose))),
+            ("from_numpy_constant_guard_first_equals_last", lambda: patch(BV, "from_numpy", from_numpy_factory(same=same_ends))),
+            ("from_numpy_constant_guard_nan_propagating", lambda: patch(BV, "from_numpy", from_numpy_factory(same=same_nanprop))),
+            ("from_numpy_constant_guard_rounded_6_digits", lambda: patch(BV, "from_numpy", from_numpy_factory(same=same_rounded))),
+            ("unscale_skips_traits_with_unit_scale", lambda: patch(BV, "unscale", unscale_skips_unit_scale)),
+            ("tmean_unscaled_missing_as_zero", lambda: patch(BV, "tmean", tmean_of_unscaled_zero_filled)),
+            ("trange_scaled_by_location", lambda: patch(BV, "trange", trange_nan_ignoring_on_stored_only)),
+            ("from_pandas_table_taken_as_standardised", lambda: patch(BV, "from_pandas", classmethod(from_pandas_as_scaled))),
+            ("from_pandas_drops_taxa_with_missing_values", lambda: patch(BV, "from_pandas", classmethod(from_pandas_dropna))),
+            ("generic_select_negative_axis_goes_to_traits", lambda: patch(TTM, "select", select_negative_axis_to_trait)),
+            ("generic_delete_negative_axis_flips_positions", lambda: patch(TTM, "delete", delete_negative_axis_flipped)),
+            ("adjoin_taxa_pooled_location_from_stored_location", lambda: patch(BV, "adjoin_taxa", adjoin_pooled_location)),
+            ("insert_taxa_combined_matrix_in_operand_dtype", lambda: patch(BV, "insert_taxa", insert_in_operand_dtype)),
+            ("scale_setter_real_repeated_per_taxon", lambda: patch(BV, "scale", property(BV.__dict__["scale"].fget,
+                                                                                          scale_setter_per_taxon))),
+            ("location_setter_real_truncated", lambda: patch(BV, "location", property(BV.__dict__["location"].fget,
+                                                                                       location_setter_int_array))),
             # round 3
             ("to_pandas_unscale_without_location", lambda: patch(BV, "to_pandas", to_pandas_forgets_location)),
             ("tvar_mean_square_assumes_centred_columns", lambda: patch(BV, "tvar", tvar_mean_square)),
@@ -1897,7 +2277,7 @@ class C15(Prop):
             ("unscale_copy_resets_parameters", lambda: patch(SM, "unscale", unscale_not_inplace_resets_parameters)),
             ("transform_integer_reciprocal_of_integer_scale", lambda: patch(SM, "transform", transform_integer_reciprocal)),
             # mechanism 1: from_numpy
-            ("from_numpy_scale_not_guarded", lambda: patch(BV, "from_numpy", from_numpy_factory(guard=False))),
+            ("from_numpy_scale_not_guarded", lambda: patch(BV, "from_numpy", from_numpy_factory(guard=False, cguard=False))),
             ("from_numpy_location_nanmedian", lambda: patch(BV, "from_numpy", from_numpy_factory(center="nanmedian"))),
             ("from_numpy_one_pass_scale", lambda: patch(BV, "from_numpy", classmethod(from_numpy_one_pass))),
             # mechanism 2: unscale and the structural operations
